@@ -188,13 +188,16 @@ def obligations(tier, seed):
             for t in range(len(TYPES)):
                 if tier == "quick" and t not in (0, 2, 4):
                     continue
-                obs.append(Ob(id="C09.2-fields[%s,%s,type=%s]" % ("dir" if mode == 0 else "file", "root" if root else "/k", TYPES[t]), body="harness.C09:body_fields",
-                              sig="t: int, s: int, h: int, p: int, mode: int, root: bool, t2: int, s2: int",
-                              pre=["mode == %d" % mode, "root == %s" % root, "t == %d" % t, "0 <= s < %d" % len(SELS), "0 <= h <= 2", "0 <= p <= 2", "0 <= t2 < %d" % len(TYPES), "0 <= s2 < %d" % len(SELS)]
-                              + (["t2 == 1", "s2 <= 3"] if tier == "quick" else []), timeout=300 if tier == "quick" else 1800,
-                              desc="a link line with symbolic selector form (missing, empty, relative file/dir, absolute, URL:, nonexistent), host and port (missing/empty/given), an info line, "
-                                   "a blank line and a second link line: one entry per line in file order with the documented fields; prepare() never touches the protocol object",
-                              bounds="9 selector forms x 3 host x 3 port x second line (symbolic indices)", functions=["pygopherd.handlers.gophermap.BuckGophermapHandler.prepare", "GopherEntry.populatefromvfs"]))
+                # ~0.8 s per path: quick = 9 x 3 x 3 x 2 paths per obligation; thorough is partitioned by selector form
+                for sp in ([None] if tier == "quick" else list(range(len(SELS)))):
+                    obs.append(Ob(id="C09.2-fields[%s,%s,type=%s%s]" % ("dir" if mode == 0 else "file", "root" if root else "/k", TYPES[t], "" if sp is None else ",sel=%d" % sp), body="harness.C09:body_fields",
+                                  sig="t: int, s: int, h: int, p: int, mode: int, root: bool, t2: int, s2: int",
+                                  pre=["mode == %d" % mode, "root == %s" % root, "t == %d" % t, ("0 <= s < %d" % len(SELS)) if sp is None else "s == %d" % sp, "0 <= h <= 2", "0 <= p <= 2", "0 <= t2 < %d" % len(TYPES), "0 <= s2 <= 1"]
+                                  + (["t2 == 1"] if tier == "quick" else []), timeout=300 if tier == "quick" else 900,
+                                  desc="a link line with symbolic selector form (missing, empty, relative file/dir, absolute, URL:, nonexistent), host and port (missing/empty/given), an info line, "
+                                       "a blank line and a second link line: one entry per line in file order with the documented fields; prepare() never touches the protocol object",
+                                  bounds=("9 selector forms" if sp is None else "selector form %d" % sp) + " x 3 host x 3 port x second line (%s types x 2 selector forms), symbolic indices" % ("1" if tier == "quick" else "6"),
+                                  functions=["pygopherd.handlers.gophermap.BuckGophermapHandler.prepare", "GopherEntry.populatefromvfs"]))
     from harness import C06 as c06
 
     for kind in c06.KINDS:
